@@ -853,6 +853,55 @@ def r10_parser_by_interpretation(rep, src):
         rep.ok('C02.R10', f.site, what, '%d texts in three input forms' % len(TEXTS))
 
 
+def r11_input_forms(rep, src, tier):
+    """the constructors interpreted end to end (sa.heap, CPython's regex engine on decided lines) on one paragraph given in every input
+    form -- text, bytes, lines with and without line ends, lines of bytes -- plain, clearsigned, clearsigned behind a comment line,
+    with comment lines between the fields, behind blank lines: the generic paragraph class and the signed-document classes read the
+    same fields with the same values, whatever the form and whatever stands around the payload."""
+    from .. import heap as H
+    mod = src.mod('deb822')
+    BODY = 'Source: hello\nVersion: 1.0-1\nDescription: short\n long line\n .\n last\n'
+    FIELDS = [('Source', 'hello'), ('Version', '1.0-1'), ('Description', 'short\n long line\n .\n last')]
+    ARMOR = ('-----BEGIN PGP SIGNED MESSAGE-----\nHash: SHA256\n\n', '\n-----BEGIN PGP SIGNATURE-----\n\niQEzBAEBCAAdFiEE\n=abcd\n-----END PGP SIGNATURE-----\n')
+    TEXTS = [('plain', BODY), ('clearsigned', ARMOR[0] + BODY + ARMOR[1]), ('clearsigned behind a comment line', '# generated\n' + ARMOR[0] + BODY + ARMOR[1]),
+             ('comment lines between the fields', 'Source: hello\n# c1\nVersion: 1.0-1\nDescription: short\n long line\n# c2\n .\n last\n'),
+             ('clearsigned with comment lines between the fields', ARMOR[0] + 'Source: hello\n# c1\nVersion: 1.0-1\nDescription: short\n long line\n .\n last\n' + ARMOR[1]),
+             ('behind blank lines', '\n\n' + BODY), ('without the final line end', BODY[:-1])]
+    classes = ['Deb822', 'Dsc'] + (['Changes'] if tier == 'thorough' else [])
+    n, bad = 0, None
+    for cname in classes:
+        init = mod.method(cname, '__init__')
+        if init is None:
+            raise AnalysisError('deb822:%s.__init__ not found' % cname)
+        for label, text in TEXTS:
+            forms = [('text', text), ('bytes', text.encode()), ('lines with line ends', text.splitlines(True)), ('lines without line ends', text.splitlines()),
+                     ('lines of bytes', [l_.encode() for l_ in text.splitlines(True)])]
+            for form, arg in forms:
+                heap = H.Heap(mod, extra_modules=[src.mod('_util')], hooks={'_strI': lambda it, a, k: H.Key(a[0].lower(), a[0]) if isinstance(a[0], str) else a[0]})
+                heap.native_regex = True
+                it = H.Interp(heap)
+                p = heap.alloc(cname, {})
+                n += 1
+                try:
+                    it.call(H.Closure(init.node, {}, p, init.cls), [heap.new_list(list(arg)) if isinstance(arg, list) else arg])
+                    d_ = heap.objs[p.name].get('_Deb822Dict__dict')
+                    if not (isinstance(d_, H.Ref) and heap.objs[d_.name]['__class__'] == 'dict'):
+                        raise AnalysisError('deb822:Deb822Dict: the fields of a paragraph are not kept in self.__dict')
+                    got = [(getattr(k_, 'spelling', k_), v_.concrete() if hasattr(v_, 'concrete') else v_) for k_, v_ in heap.objs[d_.name]['entries']]
+                except H.Raised as x:
+                    got = 'raises %s (line %d)' % (x.exc, x.lineno)
+                if got != FIELDS and bad is None:
+                    bad = (cname, '%s(<%s>) for the paragraph %s: %s; the paragraph has the fields %r' % (
+                        cname, form, label, got if isinstance(got, str) else 'the fields read are %r' % (got,), [k_ for k_, _v in FIELDS]))
+    rep.analysed['paths'] += n
+    what = 'the same fields whatever the input form, the armor and the comment lines around the payload (interpreted constructors)'
+    f = mod.method('Deb822', 'split_gpg_and_payload') or mod.method('Deb822', '__init__')
+    if bad:
+        rep.fail('C02.R11', f.site, what, bad[1], where=f.where)
+    else:
+        rep.ok('C02.R11', f.site, what, '%d constructions: %d classes x %d paragraphs x 5 forms' % (n, len(classes), len(TEXTS)))
+
+
 def r9_paragraphs_share_no_container(rep, src):
     """the paragraphs that one iter_paragraphs() call produces are independent objects: what one of them spells, holds or caches does
     not reach the next.  Ownership rule on every iter_paragraphs of the module: a builtin container (dict / list / set display or
@@ -1034,6 +1083,8 @@ def check(src, rep, tier):
     rep.need('C02.R4', 5)
     rep.need('C02.R5', 1)
     rep.need('C02.R6', 2)
+    rep.need('C02.R11', 1)
+    rep.guard('C02.R11', r11_input_forms, src, tier)
     rep.need('C02.R10', 1)
 
     def language_level(soft):
